@@ -149,9 +149,20 @@ func c08hModel(file string, old bool, names []string, changes []int) *dsl.Namesp
 		fields = append(fields, b.field(n, c08hFieldType(b, changes[i], old)))
 	}
 	fields = append(fields, b.field("keep", b.st("string")))
+	// two more steps whose NAMES are symbolic (c08hStepNames) and whose types changed int -> long since the previous version:
+	// the reader / writer methods declare a temporary for the conversion
+	num := "long"
+	if old {
+		num = "int"
+	}
 	return &dsl.Namespace{Name: NS, IsTopLevel: true, TypeDefinitions: dsl.TypeDefinitions{b.record(NS, "Rec", nil, fields...)},
-		Protocols: []*dsl.ProtocolDefinition{b.protocol(NS, "P", b.step("r", b.st("Rec")), b.step("rs", b.strm(b.st("Rec"))))}}
+		Protocols: []*dsl.ProtocolDefinition{b.protocol(NS, "P", b.step("r", b.st("Rec")), b.step("rs", b.strm(b.st("Rec"))),
+			b.step(c08hStepNames[0], b.st(num)), b.step(c08hStepNames[1], b.strm(b.st(num))))}}
 }
+
+// names of the two converted steps: the names the emitted reader / writer methods use themselves are in the vocabulary
+var c08hStepVocabulary = []string{"count", "value", "values", "readBlockSuccessful", "stream", "items"}
+var c08hStepNames = [2]string{"count", "items"}
 
 // c08hEquality: the comparisons of `bool operator==(... const T& <param>) const { return a == b && ...; }` of struct name,
 // each side resolved: "this.m" / "<param>.m" / "<param>" / "?text"
@@ -219,6 +230,17 @@ func C08CppNoShadowing(firstName, nNames, nFields, nChanges int) {
 	var names []string
 	var changes []int
 	used := map[string]bool{}
+	// either the record's fields vary (default step names) or the names of the two converted steps do (plain fields)
+	if verifChoose("vary-step-names", 2) == 1 {
+		si, sj := verifChoose("plain-step-name", len(c08hStepVocabulary)), verifChoose("stream-step-name", len(c08hStepVocabulary))
+		verifAssume(si != sj)
+		c08hStepNames = [2]string{c08hStepVocabulary[si], c08hStepVocabulary[sj]}
+		nFields = 1
+		nNames, nChanges = 1, 1
+		firstName = len(c08hNames) - 1
+	} else {
+		c08hStepNames = [2]string{"count", "items"}
+	}
 	for i := 0; i < nFields; i++ {
 		n := c08hNames[firstName+verifChoose(fmt.Sprintf("name%d", i), nNames)]
 		if used[n] {
@@ -228,6 +250,7 @@ func C08CppNoShadowing(firstName, nNames, nFields, nChanges int) {
 		names = append(names, n)
 		changes = append(changes, verifChoose(fmt.Sprintf("change%d", i), nChanges))
 	}
+	verifOut("steps", fmt.Sprint(c08hStepNames))
 	verifOut("fields", fmt.Sprint(names, changes))
 	cur, err := dsl.Validate([]*dsl.Namespace{c08hModel("model.yml", false, names, changes)})
 	verifAssert("models-validate", err == nil)
